@@ -720,7 +720,7 @@ func (s *sup) keyedExtras() {
 	}
 	if d := c.declByName("R16", "keyed", "KeyedRef", "Release"); d != nil {
 		name := core.FuncName(d.Obj)
-		c.Walk("R16", &core.Config{}, core.Entry{Decl: d}, func(p *core.Path) {
+		c.Walk("R16", &core.Config{Follow: helperFollow(s.pkg, "start", "execute")}, core.Entry{Decl: d}, func(p *core.Path) {
 			g := prepare(c, p)
 			swapped := false
 			for i, ev := range p.Events {
@@ -1046,35 +1046,33 @@ func (s *sup) retryOption() {
 				}
 			})
 		}
-		var stack []ast.Node
-		ast.Inspect(d.Decl.Body, func(n ast.Node) bool {
-			if n == nil {
-				stack = stack[:len(stack)-1]
-				return true
-			}
-			stack = append(stack, n)
+		// the back-off is constructed when the option is APPLIED (inside the function handed out), not on
+		// the path that builds the option value: judged on the constructor's own paths, helpers walked in place
+		isConstruct := func(d *core.FuncDecl, n ast.Node) bool {
 			call, ok := n.(*ast.CallExpr)
 			if !ok {
-				return true
+				return false
 			}
-			if _, isConstruct := callSel(call, "Construct"); !isConstruct {
-				return true
+			if _, is := callSel(call, "Construct"); !is {
+				return false
 			}
 			f, _ := typeutil.Callee(d.Pkg.TypesInfo, call).(*types.Func)
-			if f == nil || f.Pkg() == nil || !strings.HasSuffix(f.Pkg().Path(), "/backoff") {
-				return true
-			}
-			inLit := false
-			for _, x := range stack {
-				if _, ok := x.(*ast.FuncLit); ok {
-					inLit = true
+			return f != nil && f.Pkg() != nil && strings.HasSuffix(f.Pkg().Path(), "/backoff")
+		}
+		if bodyOrCalleesMatch(c, d, isConstruct, 2) {
+			name := core.FuncName(d.Obj)
+			c.Walk("R12", &core.Config{Follow: helperFollow(s.pkg, "start", "execute")}, core.Entry{Decl: d}, func(p *core.Path) {
+				early := token.NoPos
+				for _, ev := range p.Events {
+					if ev.Kind == core.KCall && ev.Callee != nil && ev.Callee.Name() == "Construct" && ev.Callee.Pkg() != nil && strings.HasSuffix(ev.Callee.Pkg().Path(), "/backoff") {
+						early = ev.Pos
+					}
 				}
-			}
-			a.note("R12", core.FuncName(d.Obj)+"/backoff-constructed-per-container", call.Pos(), !inLit,
-				"the back-off is constructed inside the option function, once per container it is applied to",
-				"the back-off is constructed when the option value is made: every container the option is applied to shares one back-off state, so one routine's failures and successes change another's retry interval", nil)
-			return true
-		})
+				a.note("R12", name+"/backoff-constructed-per-container", d.Decl.Pos(), early.IsValid(),
+					"the back-off is constructed inside the option function, once per container it is applied to",
+					"the back-off is constructed ("+c.Prog.Pos(early)+") when the option value is made: every container the option is applied to shares one back-off state, so one routine's failures and successes change another's retry interval", p)
+			})
+		}
 	}
 }
 
